@@ -10,10 +10,48 @@ from ..terms import fmt, ZERO, num
 OPEN_TEST = 'SimulatedExchange.is_open_at_datetime'
 
 
+def s5_whole_batch(ctx):
+    """Sells go before buys across the WHOLE batch of an update.  A sort by direction applied inside the loop over the portfolios - to what was drained from that one
+    portfolio - and handed on portfolio by portfolio (yield from / extend / +=) orders each portfolio's orders only: a buy of the first portfolio is executed before
+    a sell of the second."""
+    import ast as _ast
+    from ..lib import private_closure
+    n = 0
+    for q in sorted(private_closure(ctx.M, {'SimulatedBroker.update'})):
+        g = ctx.M.funcs.get(q)
+        if g is None:
+            continue
+        pm = {c_: p_ for p_ in _ast.walk(g.node) for c_ in _ast.iter_child_nodes(p_)}
+        for c in _ast.walk(g.node):
+            if not (isinstance(c, _ast.Call) and ((isinstance(c.func, _ast.Name) and c.func.id == 'sorted') or (isinstance(c.func, _ast.Attribute) and c.func.attr == 'sort'))):
+                continue
+            n += 1
+            # enclosing loops over the portfolios / the order queues
+            anc, loops = pm.get(c), []
+            handed_on = None
+            while anc is not None and anc is not g.node:
+                if isinstance(anc, _ast.For) and any(isinstance(x_, _ast.Attribute) and x_.attr in ('portfolios', 'open_orders') for x_ in _ast.walk(anc.iter)):
+                    loops.append(anc)
+                if isinstance(anc, _ast.YieldFrom) or (isinstance(anc, _ast.Call) and isinstance(anc.func, _ast.Attribute) and anc.func.attr == 'extend') or \
+                        (isinstance(anc, _ast.AugAssign) and isinstance(anc.op, _ast.Add)):
+                    handed_on = handed_on or anc
+                anc = pm.get(anc)
+            if not loops or handed_on is None or isinstance(c.func, _ast.Attribute):
+                continue
+            lv = {x_.id for x_ in _ast.walk(loops[0].target) if isinstance(x_, _ast.Name)}
+            uses_lv = any(isinstance(x_, _ast.Name) and x_.id in lv for a_ in c.args for x_ in _ast.walk(a_))
+            if uses_lv:
+                ctx.violation('C04.S5', 'sells are executed before buys across the whole batch of an update', g.site(c),
+                              'READ!: `%s` sorts what was drained for ONE portfolio (%s) inside the loop over the portfolios and hands it on portfolio by portfolio: with two '
+                              'portfolios a buy of the first is executed before a sell of the second' % (_ast.unparse(c)[:70], ', '.join(sorted(lv))), key='C04.S5|per-portfolio')
+    ctx.holds('C04.S5', 'no ordering step of the update covers one portfolio only (%d sort calls examined)' % n, None)
+
+
 def check(ctx):
     from ..lib import discarded_results
     ctx.sub(discarded_results, 'C04.S5', ('qstrader/broker/',), 'the batch executed is the one the code sorted (no ordering step whose result is thrown away)')
     ctx.sub(s1_submit)
+    ctx.sub(s5_whole_batch)
     upd = s2_s3_update(ctx)
     ctx.sub(s4_in_full)
     from . import c06
